@@ -51,6 +51,15 @@ OwnerOnly(r, holder, signer, ok)              == r.own = "id" /\ signer # holder
 VictimUntouched(holder, signer, vpre, vpost)  == signer # holder => vpre = vpost
 RejectedChangesNothing(ok, dpre, dpost) == ~ok => dpre = dpost
 
+(* Opening messages (create a vault / locker / lend / borrow / order / limit bid) name no existing position: whoever sends
+   them, no existing position or balance of anybody else may change. They are run by third parties, once on the state as
+   it is and once after an OLDER position of the same kind was removed by its owner (a hole in the id sequence while newer
+   positions are live), and the whole owner matrix is run again on a state built that way. *)
+OpenMsgs == {"vault.MsgCreate", "locker.MsgCreateLocker", "lend.Lend", "lend.BorrowAlternate", "liquidity.LimitOrder",
+             "liquidity.MMOrder", "auctionsV2.MsgDepositLimitBid"}
+OpenSigners == {"newbie", "lp"}
+OpenVictimsUntouched(vpre, vpost) == vpre = vpost          \* combined view of every holder (none of them signs)
+
 (* ------------------------------------ (b) privileged matrix ------------------------------------ *)
 (* The 20 custom message variants and what they do (statement: "whitelists assets, sets risk or collector
    parameters, mints or burns governance tokens, or pays out collector funds").
